@@ -26,7 +26,7 @@ def main(path):
     P = importlib.import_module("harness.props.%s" % job["prop"].lower())
     # the depth the harness itself needs is small; a library call that recurses per loop iteration runs out early
     base = len(__import__("inspect").stack())
-    sys.setrecursionlimit(base + int(job.get("stack", 260)))
+    sys.setrecursionlimit(base + int(os.environ.get("VERIF_STACK", job.get("stack", 130))))
     diffs = []
     for k, (case, want) in enumerate(zip(job["cases"], job["results"])):
         try:
